@@ -286,7 +286,9 @@ class CFGBuilder(AstVisitor[BB | None]):
 
         if node.decorator_list:
             raise GuppyError(
-                UnsupportedError(node.decorator_list[0], "Decorators on nested functions")
+                UnsupportedError(
+                    node.decorator_list[0], "Decorators on nested functions"
+                )
             )
         node, docstring = parse_function_with_docstring(node)
 
